@@ -328,8 +328,15 @@ def _route(name, wd, seed):
         fn = os.path.join(wd, 'c12copy_%s.%s' % (name, 'h5' if name == 'h5' else 'fil'))
         if os.path.exists(fn):
             os.remove(fn)
+        # the observation header carries values that are NOT the library's template defaults (another telescope, beam):
+        # they belong to the file and to every copy of a frame loaded from it
+        wf0 = base.get_waterfall()
+        wf0.header['telescope_id'] = 4
+        wf0.header['ibeam'] = 3
         (base.save_h5 if name == 'h5' else base.save_fil)(fn)
         fr = stg.Frame(waterfall=fn, seed=seed)
+        if int(fr.waterfall.header.get('telescope_id', -1)) != 4:
+            raise engine.HarnessError('edited header field did not reach the file (%r)' % fr.waterfall.header.get('telescope_id'))
         if name == 'file_sliced':
             fr = fr.get_slice(2, 8)
         return fr
@@ -351,7 +358,18 @@ def _route(name, wd, seed):
 def _snapshot(fr):
     wf = None
     if fr.waterfall is not None:
-        wf = _h(sorted((k, repr(v)) for k, v in fr.waterfall.header.items()))
+        def _nv(v):
+            # header values by VALUE: a refresh of the attached Waterfall may turn 10 into np.int64(10) and back
+            if isinstance(v, (bool, np.bool_)):
+                return 'b%d' % int(v)
+            if isinstance(v, (int, np.integer)):
+                return 'i%d' % int(v)
+            if isinstance(v, (float, np.floating)):
+                return 'f%r' % float(v)
+            if isinstance(v, bytes):
+                return 's' + v.decode('latin1')
+            return 's' + str(v)
+        wf = _h(sorted((str(k), _nv(v)) for k, v in fr.waterfall.header.items()))
     return dict(data=_h(fr.data), fs=_h(fr.fs), ts=_h(fr.ts), meta=_h(sorted(fr.metadata.items(), key=str)),
                 noise=_h(fr.noise_mean, fr.noise_std), rng=_h(json.dumps(fr.rng.bit_generator.state, sort_keys=True, default=str)),
                 scal=_h(fr.df, fr.dt, fr.fch1, fr.ascending, fr.t_start, fr.source_name, fr.shape), wf=wf)
@@ -396,6 +414,8 @@ def case_copy(c):
             os.remove(fn)
             return out
         had_wf = orig.waterfall is not None
+        if had_wf:
+            orig.get_waterfall()       # bring the attached Waterfall up to date first (a lazy refresh is not a change)
         s0 = _snapshot(orig)
         try:
             cp = dup(orig)
@@ -410,7 +430,9 @@ def case_copy(c):
                 V('copy_differs', '%s of a %s frame: %s differs from the original' % (how, c['route'], k), site)
             if s_orig_after[k] != s0[k]:
                 V('original_changed', 'taking a %s of a %s frame changed the original\'s %s' % (how, c['route'], k), site)
-        if how == 'copy' and had_wf and (cp.waterfall is None or sc['wf'] != _snapshot(orig)['wf']):
+        if had_wf and s_orig_after['wf'] != s0['wf']:
+            V('original_changed', 'taking a %s of a %s frame changed the ORIGINAL\'s attached Waterfall header (or detached it)' % (how, c['route']), site)
+        if how == 'copy' and had_wf and (cp.waterfall is None or sc['wf'] != s0['wf']):
             V('copy_differs', 'copy of a %s frame: attached Waterfall header differs / missing' % c['route'], site)
         n = 0
         for m in MUTATIONS:
